@@ -229,6 +229,15 @@ d10=10[d10=10=10]=10 é¦–å…ˆè¿›è¡Œä¸€æ¬¡çœç•¥ï¼Œå³æ–‡æœ¬æ ‡æ³¨å¦‚æœç­‰äºå€¼ï¼
 */
 func (ctx *Context) makeDetailStr(details []BufferSpan) string {
 	offset := ctx.parser.pt.offset
+	// åªé‡‡ç”¨è½åœ¨å·²è§£ææ–‡æœ¬ä¹‹å†…çš„åŒºé—´ã€‚è§£æå™¨è¯•è¿‡åˆæ”¾å¼ƒçš„åˆ†æ”¯ä¼šæŠŠå®ƒçš„ mark.detail æŒ‡ä»¤ç•™åœ¨ä»£ç é‡Œ(åŒºé—´åœ¨å·²è§£ææ–‡æœ¬ä¹‹åï¼Œç”šè‡³é¦–å°¾é¢ å€’)ï¼Œ
+	// è¿™æ ·çš„åŒºé—´ä¸å±äºè¿™æ¬¡çš„ç»“æœï¼Œæ‹¿å»åˆ‡ç‰‡ä¼šè¶Šç•Œ panic
+	inside := make([]BufferSpan, 0, len(details))
+	for _, d := range details {
+		if d.Begin >= 0 && d.Begin <= d.End && d.End <= IntType(offset) {
+			inside = append(inside, d)
+		}
+	}
+	details = inside
 	if ctx.Config.CustomMakeDetailFunc != nil {
 		return ctx.Config.CustomMakeDetailFunc(ctx, details, ctx.parser.data, offset)
 	}
